@@ -115,3 +115,4 @@ def run(ctx):
     r.require_min(10)
     ctx.borrow('c14', ['R14f'], 'a failed create must not change the reference count of the shared GF tables')
     ctx.borrow('c18', ['R18d'], 'a failed call must not leave the registry lock held')
+    ctx.borrow('c16', ['R16a', 'R16f', 'R16g'], 'a failing operation releases everything it allocated, exactly once')
